@@ -1,5 +1,6 @@
 (** C18 — Printing is an idempotent, deterministic normal form; the AST stays untouched. *)
 From GoSh Require Import Print.Bufio.
+From GoSh Require Import Base.Bytes Base.Utf8 Expand.Expand Lex.Quote Lex.Reprint.
 From Coq Require Import List.
 
 (** A writer that fails before the whole output has been accepted is reported by Fprint: the
@@ -22,3 +23,13 @@ Print Assumptions C18_trim_undo_identity.
 (** Not proved: idempotence of the layout (print o parse o print = print); decided on every run
     on generated programs under all 256 Configs, together with determinism and the deep comparison
     of the tree before and after printing. *)
+
+(** Formatting is a fix-point at the level of words of literal quotings: for every text the word
+    scanner accepts, the printed form of the word, scanned again and printed again, is the same text
+    (model of the printer's notation: Lex/Reprint.v, compared with printer.Fprint on every run). *)
+Theorem C18_printed_word_is_a_fix_point :
+  forall f s w rest, forallb scalar s = true ->
+    scan_word f s [] = Some (w, rest) ->
+    exists F w', scan_word F (print_parts w ++ rest) [] = Some (w', rest) /\ print_parts w' = print_parts w.
+Proof. exact print_scan_print. Qed.
+Print Assumptions C18_printed_word_is_a_fix_point.
